@@ -695,6 +695,8 @@ class VMF:
         reserved until it is destroyed, and its node ID as long as it has
         the ``nodeid`` keyvalue.
         """
+        if item is self.spawn:
+            raise ValueError('The worldspawn entity cannot be removed!')
         try:
             self.entities.remove(item)
         except ValueError:
